@@ -1,2 +1,2 @@
 SPECIFICATION TSpec
-INVARIANTS SEncode SDecodeFaithful SAggFaithful
+INVARIANTS SEncode SDecodeRepaired SAggRepaired
